@@ -237,9 +237,32 @@ func body(c *explore.Chooser) *explore.Case {
 			appendTo(0, " "+comment)
 		}
 	} else {
-		k := c.Free(6, "rule-placement")
-		placement = []string{"above-rule", "trailing-first-line", "between-fields", "after-last-field", "trailing-last-line", "above-rule-after-blank"}[k]
+		k := c.Free(9, "rule-placement")
+		placement = []string{"above-rule", "trailing-first-line", "between-fields", "after-last-field", "trailing-last-line", "above-rule-after-blank", "end-of-first-nested-block", "end-of-last-nested-block", "end-of-last-nested-block-then-blank"}[k]
+		// last lines of the rule's nested mappings (labels:, annotations:): a comment at the nested indentation right
+		// after them is a foot comment of the last nested key and belongs to this rule even when another rule follows
+		// (added after seed C07_4)
+		var nestedEnds []int
+		for j := starts[ti]; j <= ends[ti]; j++ {
+			if strings.HasPrefix(lines[j], "      ") && (j == ends[ti] || !strings.HasPrefix(lines[j+1], "      ")) {
+				nestedEnds = append(nestedEnds, j)
+			}
+		}
+		if k >= 6 && (prelude != 0 || len(nestedEnds) == 0) {
+			return &explore.Case{Skip: true}
+		}
 		switch k {
+		case 6:
+			insert(nestedEnds[0]+1, "      "+comment)
+		case 7, 8:
+			if k == 7 && len(nestedEnds) == 1 {
+				return &explore.Case{Skip: true} // same as 6
+			}
+			at := nestedEnds[len(nestedEnds)-1] + 1
+			insert(at, "      "+comment)
+			if k == 8 {
+				insert(at, "") // lands between the comment and the next line
+			}
 		case 0:
 			insert(starts[ti], "  "+comment)
 		case 1:
@@ -379,7 +402,7 @@ func diff(want, got []string) (missing, extra []string) {
 func main() {
 	explore.Main(&explore.Config{
 		Property: "C07", Level: "exploration",
-		Rule: "all 1- and 2-rule strict files over a 13-rule palette under a config enabling every configurable offline check kind; for every (rule, reporter) pair in the baseline report x 9 comment forms (disable/snooze by name and by check String(), RFC3339 and date timestamps, future/past, file-level variants) x 6 rule placements / 4 file placements x 5 preludes (none, expired file/snooze or snooze of the same check earlier, file/disable of another check, the comment twice) x {plain, locked, plain + rule{enable=[every check]}, unlocked block followed by the same block locked} config: the multiset of (rule, reporter, severity, summary, details, diagnostics, line ranges) after must equal before minus exactly the targeted slice, shifted by the inserted lines. Complete product (no deviation bound).",
+		Rule: "all 1- and 2-rule strict files over a 13-rule palette under a config enabling every configurable offline check kind; for every (rule, reporter) pair in the baseline report x 9 comment forms (disable/snooze by name and by check String(), RFC3339 and date timestamps, future/past, file-level variants) x 9 rule placements (the last three, at the end of a nested labels/annotations block, without prelude) / 4 file placements x 5 preludes (none, expired file/snooze or snooze of the same check earlier, file/disable of another check, the comment twice) x {plain, locked, plain + rule{enable=[every check]}, unlocked block followed by the same block locked} config: the multiset of (rule, reporter, severity, summary, details, diagnostics, line ranges) after must equal before minus exactly the targeted slice, shifted by the inserted lines. Complete product (no deviation bound).",
 		Assumptions: []string{
 			"snooze timestamps are decades away from now, so the wall clock cannot flip a verdict",
 			"'after the last field' is only generated for the last rule of a file: directly followed by another list item YAML does not define whose comment it is",
